@@ -26,6 +26,7 @@ OUTSIDE = {
  "r14-C15-v1": "a recovery that waits for the end of the request body is slow, not wrong; the body of the case ends after 300 ms (third review)",
  "r13-C03-v2": "whether an informational status counts as 'written' is C13's to say (third review; C13 reports it)",
  "r14-C03-v2": "whether a Write of no bytes counts as 'written' is C13's to say (third review; C13 reports it)",
+ "r20-C07-v2": "needs AutoHead: C07 declares flat routes without it (C11 and C10 report it)",
  "r18-C01-v1": "needs AutoHead: C01 registers flat route sets without it (C11 and C10 report it)",
  "r18-C05-v1": "a memo inside the injector keyed by struct type: applied by value and by pointer (C04, which does both, reports it without any concurrency)",
  "r18-C07-v1": "needs a handler that registers a route while its own request is being served: every statement takes set-up to be finished before requests arrive",
